@@ -9,6 +9,7 @@ pub mod c09;
 pub mod c10;
 pub mod c11;
 pub mod c12;
+pub mod c17;
 pub mod env;
 pub mod mods;
 pub mod ops;
@@ -33,6 +34,7 @@ fn main() {
             "C10" => c10::replay(&ctx, &sub, &case),
             "C11" => c11::replay(&ctx, &sub, &case),
             "C12" => c12::replay(&ctx, &sub, &case),
+            "C17" => c17::replay(&ctx, &sub, &case),
             _ => {
                 eprintln!("harness error: pzv-hal cannot replay property {prop}");
                 2
@@ -78,6 +80,10 @@ fn main() {
         "C12" => {
             c12::run(&ctx);
             ctx.finish(c12::RULE, &["this binary covers the HAL layer; the core / CKKS / binary-FHE (operation, tmp_bytes) pairs are covered by the scheme-level parts of C12"], &[("query_not_multiple_of_64", 50)])
+        }
+        "C17" => {
+            c17::run(&ctx);
+            ctx.finish(c17::RULE, &["AddressSanitizer instruments Rust code and intrinsics of the harness and of the poulpy crates (std is not rebuilt); inline/global assembly is covered by guard margins only", "uninitialised reads are not detected here (no MSan: it needs -Zbuild-std and does not understand the assembly); C11/C12 two-fill determinism approximates them"], &[("n_not_multiple_of_8", 100), ("size_below_capacity", 100), ("deserialise_corrupted", 50)])
         }
         _ => {
             eprintln!("harness error: unknown property {prop}");
